@@ -66,8 +66,8 @@ Proof.
   set (content := takeN (e - off * 8) (dropN (off * 8) (fr_payload f))).
   assert (Lc : len content = e - off * 8).
   { unfold content. apply len_takeN_exact. rewrite len_dropN. fold plen. unfold e. lia. }
-  unfold ipdgram, cadd, two16, wrap16. rewrite (N.mod_small (len content)) by (rewrite Lc; unfold e; lia).
-  destruct (len content + 20 <? 65536) eqn:E20; [|rewrite Lc in E20; unfold e in E20; lia]. cbn [obind].
+  unfold ipdgram, wrap16. rewrite (N.mod_small (len content)) by (rewrite Lc; unfold e; lia).
+  rewrite (N.mod_small (len content + 20)) by (rewrite Lc; unfold e; lia).
   intros E. apply Ok_inj in E. subst p. cbn zeta. unfold pkt_of_body. cbn [pk_body].
   rewrite l3_of_framed by reflexivity.
   set (mf := negb (e =? plen)).
@@ -102,9 +102,9 @@ Theorem datagram_whole f raw p :
   let d := l3_of raw (pk_body p) in
   fragment_of d = {| fg_off := 0; fg_mf := false; fg_data := fr_payload f |}.
 Proof.
-  intros (Hw & Hfr) Hfit. unfold frag_datagram, ipdgram, cadd, two16, wrap16.
+  intros (Hw & Hfr) Hfit. unfold frag_datagram, ipdgram, wrap16.
   rewrite (N.mod_small (len (fr_payload f))) by lia.
-  destruct (len (fr_payload f) + 20 <? 65536) eqn:E20; [|lia]. cbn [obind].
+  rewrite (N.mod_small (len (fr_payload f) + 20)) by lia.
   intros E. apply Ok_inj in E. subst p. cbn zeta. unfold pkt_of_body. cbn [pk_body].
   rewrite l3_of_framed by reflexivity.
   set (h1 := ip_set_mf (ip_set_frag_off (ip_set_tot_len (fr_hdr f) (len (fr_payload f) + 20)) 0) false).
